@@ -134,6 +134,18 @@ def body_diffuse(case):
         else:  # the input was accepted (out-of-domain numbers are not checked by the stage): throw the batch again
             with cut("RegionGeom.throw (again)"):
                 g.throw(np.array(u_rows, dtype=np.float64).T.copy())
+    if case.get("shallow"):
+        # a copy.copy of the thrown geometry throws a same-sized batch of its own and is evaluated first: the original's
+        # integrals still follow from the original's columns
+        import copy
+
+        with cut("copy.copy of the geometry throws and integrates its own batch"):
+            clone = copy.copy(g)
+            clone.throw((np.array(u_rows, dtype=np.float64).T[:, ::-1] * 0.6 + 0.2).copy())
+            kc = int(np.asarray(clone.event_mask, dtype=bool).sum())
+            if kc:
+                clone.mcintegral(np.full(kc, 10.0), np.full(kc, 0.9), np.full(kc, 0.5), 5.0, 1.0, 1.0)
+        labels.add("shallow_copy_evaluated_first")
     snap = [a.tobytes() for a in (trig, pexit)] + ([cos_eff.tobytes()] if np.ndim(cos_eff) else [])
     with cut("RegionGeom.mcintegral"):
         mcint, geo_only, npass, unc = g.mcintegral(trig, cos_eff, pexit, thr, norm, wsum)
@@ -534,7 +546,7 @@ arrays = {
 SUBCHECKS = [
     SubCheck(
         "diffuse_arrays",
-        st.fixed_dictionaries({"cfg": gc.geom_config(), "u": gc.points(2, 40), "bad": st.sampled_from([None, None] + gc.BAD_THROWS), **arrays, "own": st.lists(st.integers(0, 5), min_size=3, max_size=12), "scalar_cos": st.booleans(), "perm": st.lists(st.floats(0, 1), min_size=40, max_size=40)}),
+        st.fixed_dictionaries({"cfg": gc.geom_config(), "u": gc.points(2, 40), "bad": st.sampled_from([None, None] + gc.BAD_THROWS), "shallow": st.booleans(), **arrays, "own": st.lists(st.integers(0, 5), min_size=3, max_size=12), "scalar_cos": st.booleans(), "perm": st.lists(st.floats(0, 1), min_size=40, max_size=40)}),
         body_diffuse,
         lambda labels: bool(labels & {"threshold_and_cone_cuts", "tie"}),
         {"quick": 600, "thorough": 30000},
